@@ -1,6 +1,6 @@
 """Run command groups through a driver variant (optionally under a tool), in parallel shards,
 and feed every recorded event to its oracle."""
-import multiprocessing, os, shutil, signal, subprocess, sys, time, traceback
+import multiprocessing, os, resource, shutil, signal, subprocess, sys, time, traceback
 
 from .core import OUT, Problem, Res, common_checks
 from . import build
@@ -25,6 +25,7 @@ class StageResult:
         self.wall = 0.0
         self.events = 0
         self.tool_reports = 0
+        self.raw = []             # (cmd.uid, result line without probe tokens) when keep_raw
 
     def merge(self, o):
         self.problems += o.problems
@@ -37,6 +38,7 @@ class StageResult:
         self.inconclusive += o.inconclusive
         self.events += o.events
         self.tool_reports += o.tool_reports
+        self.raw += o.raw
 
 
 _G = {}
@@ -99,9 +101,16 @@ def _run_shard(k):
         outp = os.path.join(tmp, 'shard%d.out.%d' % (k, restarts))
         errp = os.path.join(tmp, 'shard%d.err.%d' % (k, restarts))
         argv = TOOLS[tool] + g['prefix'] + [g['binary'], script, str(start)]
+        mem = g.get('mem')
+
+        def limits():
+            if mem:
+                resource.setrlimit(resource.RLIMIT_AS, (mem, mem))
+            resource.setrlimit(resource.RLIMIT_CORE, (0, 0))
+
         try:
             with open(outp, 'w') as fo, open(errp, 'w') as fe:
-                p = subprocess.run(argv, stdout=fo, stderr=fe, env=env, timeout=g['timeout'])
+                p = subprocess.run(argv, stdout=fo, stderr=fe, env=env, timeout=g['timeout'], preexec_fn=limits)
             rc = p.returncode
         except subprocess.TimeoutExpired:
             rc = 'timeout'
@@ -163,6 +172,8 @@ def _run_shard(k):
         if toks is None:
             continue
         sr.events += 1
+        if g.get('keep_raw'):
+            sr.raw.append((c.uid, ' '.join(t for t in toks if not t.startswith('@'))))
         try:
             res = Res(toks, names)
             probs = list(c.check(res)) + common_checks(res)
@@ -192,7 +203,7 @@ def _run_shard(k):
     return sr
 
 
-def run_stage(variant, groups, tool=None, prefix=None, env=None, timeout=900, jobs=None, binary=None):
+def run_stage(variant, groups, tool=None, prefix=None, env=None, timeout=600, jobs=None, binary=None, mem='default', keep_raw=False):
     """groups: list of lists of Cmd (each group keeps its order and shares one process).
     Returns StageResult."""
     t0 = time.time()
@@ -210,8 +221,11 @@ def run_stage(variant, groups, tool=None, prefix=None, env=None, timeout=900, jo
     tmp = os.path.join(OUT, 'tmp', '%d-%d' % (os.getpid(), int(time.time() * 1000) % 100000000))
     os.makedirs(tmp, exist_ok=True)
     _G.clear()
+    if mem == 'default':
+        # address-space cap so that a runaway allocation loop becomes a process fault within seconds
+        mem = None if (tool or 'guard' in variant or 'asan' in variant) else (6 << 30)
     _G.update(dict(shards=shards, tmp=tmp, tool=tool, prefix=prefix or [], binary=binary, variant=variant,
-                   env=env or {}, timeout=timeout))
+                   env=env or {}, timeout=timeout, mem=mem, keep_raw=keep_raw))
     total_sr = StageResult()
     try:
         if nsh == 1:
